@@ -313,6 +313,22 @@ def op_text(model, sg, op, kind):
     elif kind in ("LOGISTIC", "TANH"):
         one_scale(T[ins[0]], kind)
         one_scale(T[outs[0]], kind)
+    elif kind == "SOFTMAX":
+        x, o = T[ins[0]], T[outs[0]]
+        si, _ = one_scale(x, kind)
+        so, zo = one_scale(o, kind)
+        if x["type"] not in ("int8", "uint8") or o["type"] != x["type"]:
+            raise NotSimulated(f"SOFTMAX:{x['type']}_to_{o['type']}")
+        if f32bits(so) != 0x3B800000 or zo != QRANGE[o["type"]][0]:
+            raise NotSimulated("SOFTMAX:output_quantisation")        # the reference kernels reject it
+        beta = f32(opt(op, 0, "f", 0.0))
+        # PreprocessSoftmaxScaling (5 integer bits), CalculateInputRadius: all in double
+        real = min(np.float64(beta) * np.float64(si) * (1 << 26), (1 << 31) - 1.0)
+        m, ls = quantize_multiplier(real)
+        if ls < 0 or m == 0:
+            raise NotSimulated("SOFTMAX:multiplier_below_one")
+        diff_min = -int(math.floor(1.0 * 31 * (1 << 26) / (1 << ls)))
+        g = [[m, ls, diff_min, f32bits(beta)]]
     elif kind in ("RESHAPE", "SQUEEZE", "EXPAND_DIMS"):
         if qparams(T[ins[0]]) != qparams(T[outs[0]]):
             raise NotSimulated(f"{kind}:quantisation_differs")
@@ -523,10 +539,15 @@ def build_request(src_bytes, res, inputs_hex, capture):
 
             progs.append(f"{fbwalk.tensor_bytes(scratch_t)},{fbwalk.tensor_bytes(fast_t)}|{','.join(map(str, words))}|"
                          f"{','.join(place(i) for i in fm_ins)}|{','.join(place(i) for i in fm_outs)}|{','.join(map(str, widx))}")
+    oarena = ""
+    if og.npu_ops and offs is not None and len(offs) >= len(osg["tensors"]):
+        # arena = every tensor that has an offline offset (the scratch tensors of the Ethos-U operators included)
+        size = max([offs[i] + fbwalk.tensor_bytes(t) for i, t in enumerate(osg["tensors"]) if offs[i] >= 0] or [0])
+        oarena = f" oarena={size}:{','.join(str(offs[i]) for i in range(len(osg['tensors'])))}"
     line = (f"semcheck lutbase={lutbase} shram={shram} st={sg.tensors} so={sg.ops} si={','.join(map(str, sg.inputs))} "
             f"sout={','.join(map(str, sg.outputs))} ot={og.tensors} oo={og.ops} oi={','.join(map(str, og.inputs))} "
             f"oout={','.join(map(str, og.outputs))} flash={flash_hex} prog={';'.join(progs)} wt={';'.join(wtab)} "
-            f"data={';'.join('/'.join(s) for s in inputs_hex)}")
+            f"data={';'.join('/'.join(s) for s in inputs_hex)}{oarena}")
     return line, sg, og
 
 
